@@ -54,6 +54,8 @@ def main():
         if only and s not in only:
             continue
         meta = json.load(open(os.path.join(ROOT, "seeded", s, "meta.json")))
+        if meta.get("retired"):
+            continue
         props = [p for p in [meta["property"]] + meta.get("also_check", []) + extra if p in cl]
         props = list(dict.fromkeys(props))
         if props:
